@@ -816,7 +816,8 @@ impl Fixture {
 		self.http_via_proxy(req).await
 	}
 
-	async fn http_via_proxy(&self, req: HttpReq) -> HttpResp {
+	/// any request through the service behind `ProxyGetRequestLayer` (which maps `GET /health` to `guard_probe`)
+	pub async fn http_via_proxy(&self, req: HttpReq) -> HttpResp {
 		use jsonrpsee_server::middleware::http::ProxyGetRequestLayer;
 		use tower::Service;
 		let layer = ProxyGetRequestLayer::new([("/health", "guard_probe")]).expect("valid path");
